@@ -41,7 +41,7 @@ func runC14(c *Ctx, r *Rec) {
 		return
 	}
 	if _, ok := mp.Origin().Underlying().(*types.Map); !ok {
-		r.undecided("bind", "collection."+mp.Obj().Name(), "", "the map type is no longer a named Go map: the effect-signature rule must be re-bound")
+		r.skip("bind", "collection."+mp.Obj().Name(), "", "the map type is no longer a named Go map: the effect-signature rule must be re-bound")
 		return
 	}
 	info := c.info("collection")
